@@ -1816,7 +1816,7 @@ func (m *decModel) emptinessAccumulators(p *core.Prog) []*types.Var {
 }
 
 func fnShort(fn *ssa.Function) string {
-	n := fn.Name()
+	n := core.FnName(fn)
 	if fn.Signature.Recv() != nil {
 		return "(" + core.NamedOfShort(fn.Signature.Recv().Type()) + ")." + n
 	}
